@@ -179,6 +179,7 @@ Definition prop_one (s : st) (swept : list Z) (o : op) (b : obs) : st * list Z *
       let '(s', x) := step s o in
       (s', swept, callbacks (ocomps x),
        check_that ((ores x =? ob b) && comps_eqb (ocomps x) (oc b)) (VPropFail 5))
+  | _ => (s, swept, 0, VBad)     (* the two-phase ops are not issued by the harness *)
   end.
 
 Fixpoint nest_prop (run : bool) (s : st) (swept : list Z) (nested : list op) (os : list obs)
@@ -209,7 +210,7 @@ Fixpoint walk_prop (fuel : nat) (s : st) (swept : list Z) (ops : list hop) (os :
       vjoin v1 (vjoin v (walk_prop fuel s2 sw2 ops' rest))
   | HBurst n :: ops', b :: os' =>
       vjoin (check_that ((ob b =? 0) && ((n =? 0) || negb (oa b =? 0))) (VPropFail 2))
-            (walk_prop fuel (mkst (counter s) (pending s) (expired s) (ncalls s + n)) swept ops' os')
+            (walk_prop fuel (mkst (counter s) (pending s) (expired s) (inflight s) (ncalls s + n)) swept ops' os')
   | _, _ => VOk
   end end.
 
